@@ -230,6 +230,9 @@ func (f *kindFlow) wrapOf(v ssa.Value, s *kindState, depth int) wrapState {
 			if o := calleeObj(c); o != nil && o.Pkg() != nil && (o.Pkg().Path() == "reflect" || o.Pkg().Path() == modPath+"/env") {
 				return wYes // received from a channel / read from a scope: sources
 			}
+			if callee := staticCallee(c); callee != nil && callee.Pkg == f.a.m.sp && x.Index == 0 && isReflectValue(x.Type()) && f.a.returnsElement(callee) {
+				return wYes // (value, error) helper handing back an element or an unboxed value: as it was produced elsewhere
+			}
 		}
 		return wNo
 	case *ssa.Call:
@@ -313,7 +316,22 @@ func (a *kindAnalysis) returnsElement(fn *ssa.Function) bool {
 				case *ssa.Call:
 					switch reflectMethod(x) {
 					case "Index", "MapIndex", "Field", "FieldByIndex":
+						if freshValue(x.Call.Args[0], 0) {
+							return false // element of a container built here from typed parts
+						}
 						return true
+					}
+				case *ssa.UnOp:
+					if x.Op == token.MUL {
+						if ia, ok := x.X.(*ssa.IndexAddr); ok && isReflectValue(x.Type()) {
+							if _, isPar := ia.X.(*ssa.Parameter); isPar {
+								return true // an element of the []reflect.Value it was given (the results of a call)
+							}
+						}
+					}
+				case *ssa.TypeAssert:
+					if isReflectValue(x.AssertedType) {
+						return true // a reflect.Value unboxed from an interface (the VM function protocol): whatever the callee left
 					}
 				case *ssa.Phi:
 					for _, e := range x.Edges {
@@ -393,6 +411,12 @@ func (f *kindFlow) Instr(in ssa.Instruction, s *kindState) *kindState {
 	case *ssa.Return:
 		if f.wrapP >= 0 {
 			f.outcome(x, s, "the helper's result")
+		} else if f.base == nil {
+			f.outcome(x, s, "the function's result")
+		}
+	case *ssa.Panic:
+		if f.base == nil {
+			f.outcome(x, s, "a failure")
 		}
 	case *ssa.Call:
 		if f.base != nil {
